@@ -60,6 +60,13 @@ var alphabet = []alphaVal{
 	{"key-name", "dev", 2},
 	{"marker", `python_version < "3.8" and extra == 'x'`, 2},
 	{"prefix-of-a", "a ", 1},
+	// White space other than ASCII space/tab/newline: strings.Fields splits on
+	// every Unicode space, a writer that only looks for ASCII ones does not.
+	{"nbsp", "a\u00a0b", 2},
+	{"vtab", "x\vy", 2},
+	{"formfeed", "f\ff", 1},
+	{"nel-trailing", "nel\u0085", 2},
+	{"em-space", "em\u2003sp", 2},
 }
 
 var alphaTotal = func() int {
